@@ -1008,6 +1008,7 @@ class Interp:
             # pure spec expression: no forks; later operands are evaluated under the guard of the earlier ones
             terms = []
             marks = []
+            pairs = []       # (operand value, its truth) in evaluation order, for the value semantics of `a or b`
             try:
                 for e in node.values:
                     try:
@@ -1017,6 +1018,7 @@ class Interp:
                             raise
                         break        # evaluated under an infeasible guard: cannot matter on this path
                     t = self.truth(v)
+                    pairs.append((v, t))
                     if isinstance(t, bool):
                         if is_and and not t:
                             terms.append(z3.BoolVal(False))
@@ -1033,6 +1035,9 @@ class Interp:
             finally:
                 for mk in reversed(marks):
                     self.ctx.pop_guard(mk)
+            if any(not (isinstance(v, bool) or (isinstance(v, SV) and v.is_bool())) for v, _ in pairs):
+                # `a or b` / `a and b` over non-boolean operands yields one of the operands, not a truth value
+                return self.boolop_value(pairs, is_and, node)
             if not terms:
                 return True if is_and else False
             return wrap(z3.And(*terms) if is_and else z3.Or(*terms))
@@ -1045,6 +1050,41 @@ class Interp:
             if (not is_and) and t:
                 return v
         return v
+
+    def boolop_value(self, pairs, is_and, node):
+        """value of a short-circuit chain whose operands are scalars (possibly None): the first operand that decides it, else the last"""
+        def scalar(v):
+            if v is None:
+                return None, z3.BoolVal(True)
+            if isinstance(v, SOpt):
+                return v.v.t, v.n
+            if isinstance(v, SV):
+                return v.t, z3.BoolVal(False)
+            if isinstance(v, (bool, int, str)):
+                return lift(v), z3.BoolVal(False)
+            raise Unsupported(f"short-circuit value of {type(v).__name__} operands in a specification context (line {getattr(node, 'lineno', '?')})")
+        v_last, _ = pairs[-1]
+        val, isnone = scalar(v_last)
+        for v, t in reversed(pairs[:-1]):
+            pv, pn = scalar(v)
+            tt = z3.BoolVal(t) if isinstance(t, bool) else t
+            take = z3.Not(tt) if is_and else tt          # this operand decides the chain
+            if pv is None and val is None:
+                continue
+            if pv is None:
+                pv = val
+            if val is None:
+                val = pv
+            if pv.sort() != val.sort():
+                raise Unsupported(f"short-circuit chain over operands of different sorts (line {getattr(node, 'lineno', '?')})")
+            val = z3.If(take, pv, val)
+            isnone = z3.If(take, pn, isnone)
+        isnone = z3.simplify(isnone)
+        if val is None:
+            return None
+        if z3.is_false(isnone):
+            return wrap(val)
+        return SOpt(isnone, SV(z3.simplify(val)))
 
     def e_UnaryOp(self, node, frame):
         v = self.eval(node.operand, frame)
